@@ -81,7 +81,7 @@ def pair_functions(py):
         sc = pair_scopes(f)
         if sc:
             out.append((name, f, sc))
-    if len(out) < 2:
+    if sum(len(x[2]) for x in out) < 2:
         raise AnalysisError('xmlwriter.py: expected the attribute emitter and its width computation to walk (name, value) pairs, found %s' % [x[0] for x in out])
     return out
 
@@ -314,11 +314,15 @@ def check(ctx):
     r3.check(oko and okc, 'open/close tag text', rel, PUSH.func.lineno, 'open/close tags written as %s / %s' % ([sh for sh, c in po], [sh for sh, c in pc_]))
     # indent characters are whitespace
     vals = set()
-    for n in ast.walk(py.cls('xmlwriter', 'XMLWriter')):
-        if isinstance(n, ast.Assign):
-            for t in n.targets:
-                if P.src(t) in ('self._indent_char', 'self._newline_char'):
-                    vals.add(py.try_fold(n.value, m, default='<?>'))
+    for mn in sorted(py.methods('xmlwriter', 'XMLWriter')):
+        WS = gsa.summarise(ctx, 'xmlwriter', 'XMLWriter.' + mn)
+        for e in gsa.find(WS, 'store', r'^self\._(indent|newline)_char$'):
+            if mn.startswith('_') and not mn.startswith('__') and e.value in WS.params:
+                continue        # a private setter handed the character by its callers: the callers' summaries (helper inlined) carry the value
+            try:
+                vals.add(py.try_fold(ast.parse(e.value, mode='eval').body, m, default='<?>'))
+            except SyntaxError:
+                vals.add('<?>')
     r3.check(vals and all(isinstance(v, str) and v.strip(' \n') == '' for v in vals), 'indent/newline characters', rel, 1,
              'indent or newline character is not whitespace: %r' % sorted(map(repr, vals)), detail=sorted(map(repr, vals)))
 
@@ -353,6 +357,29 @@ def check(ctx):
             and len(t.body) == 1 and isinstance(t.body[0], ast.Expr) and isinstance(t.body[0].value, ast.Yield) \
             and not t.handlers and [P.src(s) for s in t.finalbody] == ['self.pop_tag()'] \
             and tc.body[-1] is t
+    ctx_cls = None
+    if not ok and not deco:
+        # form (B): tagcontext returns an instance of a context-manager class of this module whose __enter__ pushes exactly the element it was
+        # constructed with and whose __exit__ pops unconditionally (`with` always calls __exit__, also when the body raises)
+        TC = gsa.summarise(ctx, 'xmlwriter', 'XMLWriter.tagcontext', inline_only=())
+        rets = [n for g_, n in TC.returns]
+        if len(rets) == 1 and isinstance(rets[0], ast.Call) and isinstance(rets[0].func, ast.Name) and rets[0].func.id in m.classes \
+                and [gsa._unparse(a) for a in rets[0].args] == TC.params and not rets[0].keywords:
+            cname_ = rets[0].func.id
+            meths_ = py.methods('xmlwriter', cname_)
+            if '__enter__' in meths_ and '__exit__' in meths_ and '__init__' in meths_:
+                IN = gsa.summarise(ctx, 'xmlwriter', cname_ + '.__init__', inline_only=())
+                fld = dict((e.value, e.target) for e in gsa.find(IN, 'store', r'^self\.\w+$') if e.cond is True)      # ctor parameter -> field
+                EN = gsa.summarise(ctx, 'xmlwriter', cname_ + '.__enter__', inline_only=())
+                EX = gsa.summarise(ctx, 'xmlwriter', cname_ + '.__exit__', inline_only=())
+                pw = IN.params[1:]
+                pu = [e for e in gsa.find(EN, 'call', r'\.push_tag$')]
+                po_ = [e for e in gsa.find(EX, 'call', r'\.pop_tag$')]
+                ok = len(pw) == 3 and all(p_ in fld for p_ in pw) and len(pu) == 1 and pu[0].cond is True and pu[0].target == fld[pw[0]] + '.push_tag' \
+                    and pu[0].args == [fld[pw[1]], fld[pw[2]]] and len(po_) == 1 and po_[0].cond is True and po_[0].target == fld[pw[0]] + '.pop_tag' \
+                    and not [e for e in EN.effects if e.kind in ('raise',)] and not [e for e in EX.effects if e.kind == 'raise']
+                if ok:
+                    ctx_cls = cname_
     r4.check(ok, 'tagcontext = push; try: yield; finally: pop', rel, tc.lineno,
              'tagcontext no longer guarantees the close tag when the body raises')
     # who may call push/pop/_open/_close
@@ -365,6 +392,9 @@ def check(ctx):
                 allowed = mod.rel == rel and where[1:] in (
                     ('push_tag', '_open_tag'), ('push_tag', '_tag_stack'), ('pop_tag', '_close_tag'), ('pop_tag', '_tag_stack'),
                     ('tagcontext', 'push_tag'), ('tagcontext', 'pop_tag'), ('__init__', '_tag_stack'))
+                if not allowed and ctx_cls is not None and mod.rel == rel and where[1:] in (('__enter__', 'push_tag'), ('__exit__', 'pop_tag')) \
+                        and P.enclosing_class(n) is not None and P.enclosing_class(n).name == ctx_cls:
+                    allowed = True
                 if not allowed:
                     offenders.append('%s:%d %s in %s' % (mod.rel, n.lineno, n.attr, where[1]))
     r4.check(not offenders, 'who may push/pop', rel, 1,
